@@ -54,7 +54,6 @@ type rec struct {
 	KTop   []string `json:"ktop"`
 	KCon   []string `json:"kcon"`
 	KTpi   []string `json:"ktpi"`
-	Free   bool     `json:"free"` // specification silent on keeping an emptied third_party_invite
 	// probes built from rejected trace lines: the concrete event, and what was recorded for it
 	Raw string `json:"raw,omitempty"`
 	API string `json:"api,omitempty"`
